@@ -1,5 +1,7 @@
 import WM.Props.C01
 import WM.Lemmas.LengthByte
+import WM.Lemmas.SearchLayout
+import WM.Lemmas.SearchModels
 /-!
 C09 — scores are the documented composition of the weighting model's term scores (list level).
 
@@ -16,28 +18,30 @@ open WM.Search WM.Compile
     live documents satisfying the query, each with the score `scoreOf ls q d` — for every binary
     tree shape over the clauses and every `Or` strategy. -/
 theorem scores (ls : LeafScore) (so : ShapeOracle) (s : Segment) (hso : ValidOracle so)
-    (hleaf : PosLeaf ls s) (hne : NoEmptyTerm s) (q : Query) (hq : PosQ q) (ctx : Ctx)
+    (hleaf : PosLeaf ls s) (q : Query) (hq : PosQ q) (ctx : Ctx)
     (hsc : ctx.scored = true) :
     compile ls so s ctx q = segHits ls q s :=
-  compile_eq_segHits ls so s hso hleaf hne q hq ctx hsc
+  compile_eq_segHits ls so s hso hleaf q hq ctx hsc
 
 /-- entry-wise reading of `scores` -/
 theorem score_of_entry (ls : LeafScore) (so : ShapeOracle) (s : Segment) (hso : ValidOracle so)
-    (hleaf : PosLeaf ls s) (hne : NoEmptyTerm s) (q : Query) (hq : PosQ q) (ctx : Ctx)
+    (hleaf : PosLeaf ls s) (q : Query) (hq : PosQ q) (ctx : Ctx)
     (hsc : ctx.scored = true) :
     ∀ e ∈ compile ls so s ctx q, e.score = scoreOf ls q (s.doc e.id) ∧ e.id ∈ s.live ∧ sat q (s.doc e.id) = true := by
-  rw [scores ls so s hso hleaf hne q hq ctx hsc]
+  rw [scores ls so s hso hleaf q hq ctx hsc]
   intro e he
   unfold segHits at he
   obtain ⟨i, hi, rfl⟩ := List.mem_map.mp he
   have := List.mem_filter.mp hi
   exact ⟨rfl, this.1, this.2⟩
 
-/-- The score of a document does not depend on the collector: a run that steps the matcher
-    (`needs_current`, e.g. `terms=True`) and a run that does not (plain `search`), with whatever tree
-    shapes, give the same `(doc, score)` list — the specified `hits`; hence a document's score is a
-    function of the query and that document alone (not of the other documents in the result), and
-    the ranked result is a permutation of it. -/
+/-- The score of a document does not depend on whether the collector needs the current match: a
+    run whose context has `needs_current` set (`terms=True`: the matcher tree is stepped, unions are
+    binary trees, constant scores are wrappers) and a run without it (plain `search`: array unions,
+    pre-read constant-score lists), with whatever tree shapes, give the same `(doc, score)` list — the
+    specified `hits`; hence a document's score is a function of the query and that document alone
+    (not of the other documents in the result), and the ranked result is a permutation of it.
+    (Top-N collectors, `limit` and quality skipping are C05's; sorting and filtering collectors C14's.) -/
 theorem collector_independent (ls : LeafScore) (so so' : ShapeOracle) (hso : ValidOracle so)
     (hso' : ValidOracle so') (idx : Index) (hok : IndexOK ls idx) (q : Query) (hq : PosQ q)
     (nc nc' : Bool) :
@@ -56,6 +60,104 @@ theorem collector_independent (ls : LeafScore) (so so' : ShapeOracle) (hso : Val
 example : IndexOK freqLeaf WM.C01.exIdx ∧ PosQ WM.C01.exQ ∧
     hits freqLeaf WM.C01.exQ WM.C01.exIdx = [⟨1, 5⟩, ⟨4, 1⟩] :=
   ⟨WM.C01.exIdx_ok, WM.C01.exQ_pos, by decide +kernel⟩
+
+/-! ### the shipped rational weighting models -/
+
+/-- **Frequency, TF_IDF and BM25F (per-field `B`, unscorable fields scored by weight) as leaf
+    scorers.**  Each is a function of the statistics of the *whole* index (`termStats idx`: whoosh
+    builds one scorer per segment, and each asks the parent searcher), the stored weight and the
+    approximated field length.  On an index whose token and field boosts are positive, with a positive
+    idf, `K1 ≥ 0` and `0 ≤ B ≤ 1`, they satisfy `PosLeaf` on every segment; therefore, for every
+    segment `s` of the index, in every scored context the compiled list carries exactly
+    `scoreOf (model idx) q d` — the documented formula on global statistics — and the whole run is
+    `hits`. -/
+theorem models (idf : Idf) (p : Bm25) (hidf : ∀ n df, 0 < idf n df) (hp : Bm25Ok p) (idx : Index)
+    (hwf : ∀ s ∈ idx, wfSegment s = true) (so : ShapeOracle) (hso : ValidOracle so) (q : Query) (hq : PosQ q)
+    (ctx : Ctx) (hsc : ctx.scored = true) :
+    (∀ s ∈ idx, compile freqLeaf so s ctx q = segHits freqLeaf q s ∧
+                compile (tfidfLeaf idf idx) so s ctx q = segHits (tfidfLeaf idf idx) q s ∧
+                compile (bm25fLeaf p idx) so s ctx q = segHits (bm25fLeaf p idx) q s) ∧
+    run (tfidfLeaf idf idx) so ctx q idx = hits (tfidfLeaf idf idx) q idx ∧
+    run (bm25fLeaf p idx) so ctx q idx = hits (bm25fLeaf p idx) q idx := by
+  refine ⟨fun s hs => ?_, ?_, ?_⟩
+  · have h := hwf s hs
+    exact ⟨scores _ so s hso (posLeaf_freq_of_wf h) q hq ctx hsc,
+           scores _ so s hso (posLeaf_tfidf hidf idx h) q hq ctx hsc,
+           scores _ so s hso (posLeaf_bm25f hp idx h) q hq ctx hsc⟩
+  · exact runFrom_eq _ so hso q hq ctx hsc idx 0
+      (fun s hs => posLeaf_tfidf hidf idx (hwf s hs))
+  · exact runFrom_eq _ so hso q hq ctx hsc idx 0
+      (fun s hs => posLeaf_bm25f hp idx (hwf s hs))
+
+/-- BM25F (B = 3/4, K1 = 6/5, idf ≡ 2) on the example index: DisjunctionMax over an AndMaybe and a
+    Require — maximum over the matching clauses, first operand plus the optional second, first operand
+    only.  Document 1 = `aa bb` (field boost 2) of the first segment, document 3 = `aa . . cc` of the
+    second one; both scored with the statistics of the whole five-document index. -/
+def exBm : Bm25 := ⟨fun _ _ => 2, 6/5, fun _ => 3/4, fun _ => true⟩
+def exQ2 : Query :=
+  .dismax [.andMaybe (.term "t" [97] 1) (.term "t" [99] 2), .require (.term "t" [98] 4) (.term "t" [97] 1)] (1/2)
+
+example : Bm25Ok exBm ∧ (∀ s ∈ WM.C01.exIdx, wfSegment s = true) ∧ PosQ exQ2 ∧
+    (hits (bm25fLeaf exBm WM.C01.exIdx) exQ2 WM.C01.exIdx).map (·.id) = [1, 3] ∧
+    hits freqLeaf exQ2 WM.C01.exIdx = [⟨1, 4⟩, ⟨3, 3/2⟩] := by
+  refine ⟨⟨fun _ _ => by show (0 : Rat) < 2; decide +kernel, by show (0 : Rat) ≤ 6 / 5; decide +kernel,
+      fun _ => by show (0 : Rat) ≤ 3 / 4; decide +kernel, fun _ => by show (3 / 4 : Rat) ≤ 1; decide +kernel⟩, ?_,
+    posQ_of_posQuery exQ2 (by decide +kernel), by decide +kernel, by decide +kernel⟩
+  intro s hs
+  simp only [WM.C01.exIdx, List.mem_cons, List.not_mem_nil, or_false] at hs
+  rcases hs with rfl | rfl <;> decide
+
+/-! ### layout independence -/
+
+/-- **C09.layout.** Two indexes without deletions that hold the same documents (as a multiset: any
+    partition into segments, any order — what different commit / merge histories of the same
+    additions produce) have the same collection statistics for every term (document count, document
+    frequency, collection frequency, total approximated field length: each is whoosh's sum over
+    the segments).  Hence every weighting model — any function of these statistics, the stored
+    term weight and the length-byte approximation of the document's field length — induces the same
+    leaf scores, and every query scores every document the same in both layouts. -/
+theorem layout (w : Weighting) (idx idx' : Index) (hd : NoDeletions idx) (hd' : NoDeletions idx')
+    (hperm : (liveDocs idx).Perm (liveDocs idx')) :
+    (∀ f t, termStats idx f t = termStats idx' f t) ∧
+    statLeaf w idx = statLeaf w idx' ∧
+    ∀ q d, scoreOf (statLeaf w idx) q d = scoreOf (statLeaf w idx') q d := by
+  rw [liveDocs_eq_allDocs hd, liveDocs_eq_allDocs hd'] at hperm
+  have hst : ∀ f t, termStats idx f t = termStats idx' f t := fun f t => termStats_perm hperm f t
+  have hleaf : statLeaf w idx = statLeaf w idx' := by
+    funext d f t
+    simp only [statLeaf, hst f t]
+  exact ⟨hst, hleaf, fun q d => by rw [hleaf]⟩
+
+/-- … in particular for TF_IDF and BM25F: the same leaf scorer in both layouts. -/
+theorem layout_models (idf : Idf) (p : Bm25) (idx idx' : Index) (hd : NoDeletions idx) (hd' : NoDeletions idx')
+    (hperm : (liveDocs idx).Perm (liveDocs idx')) :
+    tfidfLeaf idf idx = tfidfLeaf idf idx' ∧ bm25fLeaf p idx = bm25fLeaf p idx' := by
+  rw [liveDocs_eq_allDocs hd, liveDocs_eq_allDocs hd'] at hperm
+  exact ⟨tfidfLeaf_perm idf hperm, bm25fLeaf_perm p hperm⟩
+
+/-- three documents in one segment, or split 1 + 2 in another order: same statistics; and the
+    hypothesis matters — a layout that still carries a deleted document counts it -/
+def la : Doc := ⟨[⟨"t", 1, [WM.C01.tok 97 0, WM.C01.tok 98 1], []⟩]⟩
+def lb : Doc := ⟨[⟨"t", 2, [WM.C01.tok 97 0], []⟩]⟩
+def lc : Doc := ⟨[⟨"t", 1, [WM.C01.tok 99 0, WM.C01.tok 97 1, WM.C01.tok 97 2], []⟩]⟩
+
+example : NoDeletions [⟨[la, lb, lc], []⟩] ∧ NoDeletions [⟨[lc], []⟩, ⟨[la, lb], []⟩] ∧
+    (liveDocs [⟨[la, lb, lc], []⟩]).Perm (liveDocs [⟨[lc], []⟩, ⟨[la, lb], []⟩]) ∧
+    termStats [⟨[lc], []⟩, ⟨[la, lb], []⟩] "t" [97] = ⟨3, 3, 5, 6⟩ ∧
+    termStats [⟨[la, lb, lc], []⟩] "t" [97] = ⟨3, 3, 5, 6⟩ ∧
+    -- with a deleted document still in the segment the statistics (and so idf, avgfl) differ
+    (liveDocs [⟨[la, lb, lc], [1]⟩]).Perm (liveDocs [⟨[la, lc], []⟩]) ∧
+    termStats [⟨[la, lb, lc], [1]⟩] "t" [97] ≠ termStats [⟨[la, lc], []⟩] "t" [97] := by
+  refine ⟨?_, ?_, ?_, by decide +kernel, by decide +kernel, ?_, by decide +kernel⟩
+  · intro s hs; simp at hs; subst hs; rfl
+  · intro s hs; simp at hs; rcases hs with rfl | rfl <;> rfl
+  · have h1 : liveDocs [⟨[la, lb, lc], []⟩] = [la, lb, lc] := by rfl
+    have h2 : liveDocs [⟨[lc], []⟩, ⟨[la, lb], []⟩] = [lc, la, lb] := by rfl
+    rw [h1, h2]
+    exact (List.perm_append_comm (l₁ := [la, lb]) (l₂ := [lc]))
+  · have h1 : liveDocs [⟨[la, lb, lc], [1]⟩] = [la, lc] := by rfl
+    have h2 : liveDocs [⟨[la, lc], []⟩] = [la, lc] := by rfl
+    rw [h1, h2]
 
 /-! ### the length byte -/
 
